@@ -132,7 +132,10 @@ def main():
 
 def finish(meta, seed, out_dir, keep):
     meta["kept"] = keep
-    if keep:
+    if keep and os.path.realpath(seed) == os.path.realpath(out_dir):
+        # re-evaluation of a stored seed: only the verdicts change
+        json.dump(meta, open(os.path.join(out_dir, "meta.json"), "w"), indent=1)
+    elif keep:
         os.makedirs(out_dir, exist_ok=True)
         shutil.copy(os.path.join(seed, "patch.diff"), os.path.join(out_dir, "patch.diff"))
         if os.path.exists(os.path.join(seed, "README.txt")):
